@@ -54,6 +54,7 @@ def build_inputs(case: Dict[str, Any]):
     schema_val = schema_ref
     if case.get("mixins"):
         schema_val = build_schema(sdl + "\ndirective @mixin(from: String, import: String) repeatable on FIELD | FRAGMENT_DEFINITION\n")
+    best = None
     for attempt in range(8):
         frs, ops, names, ofeats = generate_document(
             schema_ref, s * 31 + attempt, dirty, n_ops=case.get("n_ops", 3), max_depth=case.get("max_depth", 3),
@@ -62,10 +63,15 @@ def build_inputs(case: Dict[str, Any]):
         text = "\n\n".join(frs + ops)
         try:
             if not validate(schema_val, parse(text), rules):
-                return sdl, frs, ops, names, set(sfeats) | set(ofeats), schema_ref
+                cand = (sdl, frs, ops, names, set(sfeats) | set(ofeats), schema_ref)
+                # very large documents (thousands of generated classes) cost tens of seconds each: prefer a smaller one, keep the smallest as fallback
+                if len(text) <= case.get("max_doc_chars", 6000):
+                    return cand
+                if best is None or len(text) < best[0]:
+                    best = (len(text), cand)
         except Exception:  # noqa: BLE001
             continue
-    return None
+    return best[1] if best else None
 
 
 def case_features(case, feats: Set[str]) -> List[str]:
